@@ -988,6 +988,8 @@ class Loops:
             return False
         if any(a[0] == "ps" for a in ats):
             return False
+        if katom in ats and not any(a[0] == "sym" and "@" in a[1] for a in ats):
+            return True     # a fact about position k itself (e.g. "k is the last index") on this path
         return any(a[0] in ("elem", "byte") or (a[0] == "len" and isinstance(a[1], tuple)) for a in ats)
 
     def _elem_lit(self, l, katom):
